@@ -231,11 +231,14 @@ Section Seq.
     assert (Hmk : forall cb cc j' i', cb = nth_error chain j' -> j' < List.length chain -> cc = i' ->
                S w = j' * RB + i' -> (i' < RB \/ (i' = RB /\ S j' = List.length chain)) ->
                Rinv (upd_rec g1 r (rs_cur cb cc)) r chain (S w)).
-    { intros cb cc j' i' E1 E2 E3 E4 E5. constructor; auto.
+    { intros cb cc j' i' E1 E2 E3 E4 E5. constructor.
       - rewrite recs_upd_rec, upd_nth_length. exact Ir.
       - rewrite grec_upd_rec_same by exact Ir1. cbn. unfold g1 at 2. rewrite grec_upd_rb.
         eapply is_chain_ext; [| |exact Hch1]; auto.
+      - exact Ind.
+      - exact Ine.
       - rewrite grec_upd_rec_same by exact Ir1. cbn. unfold g1. rewrite grec_upd_rb. exact Itl.
+      - lia.
       - exists j', i'. rewrite grec_upd_rec_same by exact Ir1. cbn. auto. }
     assert (Hfin : forall cb cc, flat (upd_rec g1 r (rs_cur cb cc)) chain = upd_nth (flat g chain) w (fun _ => p) /\
                                  oob (upd_rec g1 r (rs_cur cb cc)) = oob g /\
@@ -466,11 +469,15 @@ Section Seq.
     assert (Ir0 : r < List.length (recs g0)) by (unfold g0; rewrite recs_upd_rec, upd_nth_length; exact Ir).
     assert (Hhd : r_head (grec g r) = nth_error chain 0) by (eapply is_chain_head; eauto).
     assert (I1 : Rinv g0 r chain 0).
-    { unfold g0. constructor; auto.
+    { unfold g0. constructor.
+      - rewrite recs_upd_rec, upd_nth_length; exact Ir.
       - rewrite grec_upd_rec_same by exact Ir. cbn. eapply is_chain_ext; [| |exact Ich]; auto.
+      - exact Ind.
+      - exact Ine.
       - rewrite grec_upd_rec_same by exact Ir. cbn. exact Itl.
-      - exists 0, 0. rewrite grec_upd_rec_same by exact Ir. cbn. repeat split; auto; try lia.
-        destruct chain; [congruence|cbn; lia]. }
+      - lia.
+      - exists 0, 0. rewrite grec_upd_rec_same by exact Ir. cbn.
+        split; [exact Hhd|]. split; [destruct chain; [congruence|cbn; lia]|]. split; [reflexivity|]. split; [reflexivity|left; lia]. }
     assert (Hfl0 : flat g0 chain = flat g chain) by (apply flat_ext; intros; apply grb_upd_rec).
     assert (HLf : List.length (flat g chain) = List.length chain * RB) by (eapply flat_length; eauto).
     assert (Hlc : lc <= RB) by lia.
